@@ -51,6 +51,8 @@ func familyFor(p *Property, e *LedgerEntry) string {
 		return "safety"
 	case "C07":
 		return "trav"
+	case "C12":
+		return "decode"
 	}
 	return ""
 }
@@ -198,6 +200,8 @@ func concreteReplay(eng *Engine, p *Property, e *LedgerEntry, fp *FuncProof, bas
 		}
 	}
 	switch family {
+	case "decode":
+		add([]byte(`nul-019 "t`)...)
 	case "trav", "errid":
 		add([]byte(`[]{}",:1 `)...)
 	default:
